@@ -48,6 +48,28 @@ pub fn hash_iter<K: Hash>(site: &'static str, keys: impl Iterator<Item = K>) {
     });
 }
 
+static YIELD_HOOK: std::sync::RwLock<Option<fn(&'static str)>> = std::sync::RwLock::new(None);
+
+/// Installs (or removes) a process-wide hook that is called at every [`yield_point`].
+///
+/// An external simulator uses this to decide which of several threads that are compiling
+/// concurrently may continue: the hook blocks the calling thread until it is scheduled again.
+pub fn set_yield_hook(hook: Option<fn(&'static str)>) {
+    if let Ok(mut h) = YIELD_HOOK.write() {
+        *h = hook;
+    }
+}
+
+/// A point at which a compilation may be interleaved with other compilations in the same process
+/// (start of every statement and expression in the type checker and the compiler, start of the
+/// circuit build and of the register allocation). Does nothing unless a hook is installed.
+pub fn yield_point(site: &'static str) {
+    let hook = YIELD_HOOK.read().ok().and_then(|h| *h);
+    if let Some(hook) = hook {
+        hook(site);
+    }
+}
+
 /// Returns and clears the probes recorded by the current thread.
 pub fn drain() -> Vec<HashIterProbe> {
     PROBES.with(|p| std::mem::take(&mut *p.borrow_mut()))
